@@ -135,6 +135,7 @@ pub fn v1_history(x: &[u8], salt: u64) -> Vec<Vec<u8>> {
         // (3) the line extended by two more digits, unterminated and terminated (a memo that
         //     compares a prefix and a length but not the terminator)
         if p > 0 && x[p - 1].is_ascii_digit() {
+            h.push(x.to_vec());
             let mut v = x[..p].to_vec();
             v.push(b'0' + rng.below(10) as u8);
             v.push(b'0' + rng.below(10) as u8);
@@ -145,6 +146,7 @@ pub fn v1_history(x: &[u8], salt: u64) -> Vec<Vec<u8>> {
         // (4) other content of the same length at the same place: an UNKNOWN line for a TCP
         //     line, a TCP4 line (or another UNKNOWN line) for an UNKNOWN line
         let l = p + 2;
+        h.push(x.to_vec());
         if x.len() >= l && x[..p].starts_with(b"PROXY TCP") && l >= 15 {
             let mut v = b"PROXY UNKNOWN".to_vec();
             if l > 15 {
@@ -201,32 +203,38 @@ pub fn v2_history(x: &[u8], salt: u64) -> Vec<Vec<u8>> {
         _ => (0, 0),
     };
     let have = x.len() - 16;
+    // every element is derived from the one before it, so that each consecutive pair is related
+    let orig = x;
+    let mut cur = x.to_vec();
     if alen > 0 && have >= alen {
         // (1) source and destination address exchanged, ports kept (any order-insensitive fold of
         //     the block - xor, sum - stays the same)
-        let mut v = x.to_vec();
+        let mut v = cur.clone();
         for i in 0..half {
             v.swap(16 + i, 16 + half + i);
         }
-        if v != x {
-            h.push(v);
+        if v != cur {
+            h.push(v.clone());
+            cur = v;
         }
         // (2) only the ports differ
         if fam != 3 {
-            let mut v = x.to_vec();
+            let mut v = cur.clone();
             let at = 16 + 2 * half + rng.below(4) as usize;
             v[at] ^= 1 << rng.below(8);
-            h.push(v);
+            h.push(v.clone());
+            cur = v;
         }
         // (3) an xor-preserving change: the same delta applied to two bytes 8 (or 4) apart
-        let mut v = x.to_vec();
         let step = if rng.coin() { 8 } else { 4 };
         if alen > step {
+            let mut v = cur.clone();
             let i = 16 + rng.below((alen - step) as u64) as usize;
             let d = 1 + rng.below(255) as u8;
             v[i] ^= d;
             v[i + step] ^= d;
-            h.push(v);
+            h.push(v.clone());
+            cur = v;
         }
         // (4) two 8-byte words exchanged
         if alen >= 16 {
@@ -236,15 +244,26 @@ pub fn v2_history(x: &[u8], salt: u64) -> Vec<Vec<u8>> {
             if a == b {
                 b = (b + 1) % words;
             }
-            let mut v = x.to_vec();
+            let mut v = cur.clone();
             for k in 0..8 {
                 v.swap(16 + 8 * a + k, 16 + 8 * b + k);
             }
-            if v != x {
-                h.push(v);
+            if v != cur {
+                h.push(v.clone());
+                cur = v;
             }
         }
+        // (4b) a sum-preserving change of two bytes
+        if alen >= 2 {
+            let mut v = cur.clone();
+            let i = 16 + rng.below((alen - 1) as u64) as usize;
+            v[i] = v[i].wrapping_add(1);
+            v[i + 1] = v[i + 1].wrapping_sub(1);
+            h.push(v.clone());
+            cur = v;
+        }
     }
+    let x = &cur[..];
     // (5) same place and length, other declared length (a truncated header whose length field is
     //     rewritten: still truncated with other counts, or complete now)
     let declared = u16::from_be_bytes([x[14], x[15]]) as usize;
@@ -273,7 +292,7 @@ pub fn v2_history(x: &[u8], salt: u64) -> Vec<Vec<u8>> {
             h.push(v);
         }
     }
-    h.push(x.to_vec());
+    h.push(orig.to_vec());
     h
 }
 
